@@ -26,6 +26,7 @@ package ice
 //@   props C03 C04 C06
 //@   requires C03 only-valid-pairs: pair == nil || a.userBindingRequestHandler != nil || pair.state == pairSucceeded
 //@   site store nominated#1 assert C03 marks-nominated: value == true && object == pair
+//@   site call updateConnectionState#1 assert C04 selection-reports-connected: arg1 == ConnectionStateConnected && pair != nil && a.getSelectedPair() == pair
 //@   ensures C03 C04 stored: a.getSelectedPair() == pair
 //@   ensures C06 C03 select-touches-only-selection-and-state: pair != nil ==> unchangedExcept("H_ice.Agent.selectedPair*", "H_ice.CandidatePair.nominated", "H_ice.Agent.connectionState", "H_ice.handlerNotifier.*", "E_ice.ConnectionState", "E_*ice.CandidatePair", "H_ice.Agent.onConnectedOnce", "Chan.closed", "H_sync.WaitGroup*")
 //@   ensures C04 C06 unselect-touches-only-selection: pair == nil ==> unchangedExcept("H_ice.Agent.selectedPair*")
